@@ -1,1 +1,130 @@
+/-
+  C15 — bind/auth handshake relays tokens faithfully and fails closed.
+  The provider is a script of (token, complete-afterwards) legs and the server a script of replies;
+  all statements are by induction on the provider script: any number of legs.
+-/
 import DpapiNg.Model.RpcClient
+namespace DpapiNg.C15
+open DpapiNg DpapiNg.Rpc DpapiNg.RpcClient
+
+/-- tokens carried by the alter_context PDUs among a list of events -/
+def alterTokens (ev : List Event) : List Bytes :=
+  ev.filterMap fun e => if e.sentType = 14 then e.sentToken else none
+
+/-- every event the loop adds is an alter_context (14) or a step that sent nothing (255) -/
+def OnlyAlter (ev : List Event) : Prop := ∀ e ∈ ev, e.sentType = 14 ∨ e.sentType = 255
+
+/-- The alter_context loop sends the provider's tokens exactly once each and in order: the tokens of the
+    alter_context PDUs it adds are a prefix of the script's tokens, all non-empty, and nothing else is sent. -/
+theorem tokens_sent (a : Auth) (script : ProviderScript) (complete : Bool) (inTok : Option Bytes) (fc : List ContextElement)
+    (sh : Bool) (server : List Bytes) (ev : List Event) (ack : Pdu) :
+    ∃ added, (alterLoop a script complete inTok fc sh server ev ack).events = ev ++ added ∧ OnlyAlter added ∧
+      ∃ n, n ≤ script.length ∧ alterTokens added = (script.take n).map (·.1) ∧ ∀ t ∈ alterTokens added, t ≠ [] := by
+  induction script generalizing complete inTok sh server ev with
+  | nil =>
+    cases complete with
+    | true =>
+      refine ⟨[], by simp [alterLoop], ?_, ⟨0, by simp, by simp [alterTokens], by simp [alterTokens]⟩⟩
+      intro e he; cases he
+    | false =>
+      refine ⟨[⟨255, 0, none, [], some (inTok.getD [])⟩], by simp [alterLoop], ?_, ⟨0, by simp, by simp [alterTokens], by simp [alterTokens]⟩⟩
+      intro e he; simp at he; subst he; right; rfl
+  | cons leg script ih =>
+    obtain ⟨tok, done⟩ := leg
+    cases complete with
+    | true =>
+      refine ⟨[], by simp [alterLoop], ?_, ⟨0, by simp, by simp [alterTokens], by simp [alterTokens]⟩⟩
+      intro e he; cases he
+    | false =>
+      by_cases htok : tok = []
+      · refine ⟨[⟨255, 0, none, [], some (inTok.getD [])⟩], by simp [alterLoop, htok], ?_, ⟨0, by simp, by simp [alterTokens], by simp [alterTokens]⟩⟩
+        intro e he; simp at he; subst he; right; rfl
+      · -- one alter_context with `tok`, then either an error or the rest of the loop
+        let e0 : Event := ⟨14, (createAlterContext fc (trailerOf a.provider tok) sh).header.packetFlags, some tok, fc.map (·.contextId), some (inTok.getD [])⟩
+        have hbase : OnlyAlter [e0] ∧ alterTokens [e0] = [tok] := by
+          refine ⟨?_, by simp [alterTokens, e0]⟩
+          intro e he; simp at he; subst he; left; rfl
+        simp only [alterLoop, htok, if_false]
+        cases hx : exchange (some a) sh (createAlterContext fc (trailerOf a.provider tok) sh) .alterContextResp server with
+        | error err =>
+          refine ⟨[e0], rfl, hbase.1, ⟨1, by simp, by simp [hbase.2], ?_⟩⟩
+          intro t ht; rw [hbase.2] at ht; simp at ht; subst ht; exact htok
+        | ok rs =>
+          obtain ⟨resp, server'⟩ := rs
+          simp only
+          cases hp : processBindAck resp fc sh with
+          | error err =>
+            refine ⟨[e0], rfl, hbase.1, ⟨1, by simp, by simp [hbase.2], ?_⟩⟩
+            intro t ht; rw [hbase.2] at ht; simp at ht; subst ht; exact htok
+          | ok r3 =>
+            obtain ⟨_, tok', sh'⟩ := r3
+            simp only
+            obtain ⟨added, h1, h2, n, hn, h3, h4⟩ := ih done tok' sh' server' (ev ++ [e0])
+            refine ⟨e0 :: added, by rw [h1]; simp, ?_, ⟨n + 1, by simp; omega, ?_, ?_⟩⟩
+            · intro e he; simp at he; rcases he with rfl | he
+              · left; rfl
+              · exact h2 e he
+            · simp only [alterTokens, List.filterMap_cons, e0, if_true, List.take_succ_cons, List.map_cons]
+              congr 1
+            · intro t ht
+              simp only [alterTokens, List.filterMap_cons, e0, if_true, List.mem_cons] at ht
+              rcases ht with rfl | ht
+              · exact htok
+              · exact h4 t ht
+
+/-- The loop stops when the security context is complete: nothing more is sent and the bind_ack is returned. -/
+theorem stops_when_complete (a : Auth) (script : ProviderScript) (inTok : Option Bytes) (fc : List ContextElement) (sh : Bool)
+    (server : List Bytes) (ev : List Event) (ack : Pdu) :
+    alterLoop a script true inTok fc sh server ev ack = ⟨ev, sh, .ok ack⟩ := by
+  cases script <;> simp [alterLoop]
+
+/-- A rejection at any exchange surfaces as an error: if the server's reply to an alter_context is a
+    bind_nak, a fault, an unexpected PDU type, or the connection is closed (`exchange` fails), the
+    handshake result is that error — nothing further is sent. -/
+theorem rejections_surface (a : Auth) (tok : Bytes) (done : Bool) (script : ProviderScript) (inTok : Option Bytes)
+    (fc : List ContextElement) (sh : Bool) (server : List Bytes) (ev : List Event) (ack : Pdu) (err : PyErr) (htok : tok ≠ [])
+    (hx : exchange (some a) sh (createAlterContext fc (trailerOf a.provider tok) sh) .alterContextResp server = .error err) :
+    (alterLoop a ((tok, done) :: script) false inTok fc sh server ev ack).outcome = .error err ∧
+    (alterLoop a ((tok, done) :: script) false inTok fc sh server ev ack).events.length = ev.length + 1 := by
+  simp [alterLoop, htok, hx]
+
+/-- what `_process_response` turns into an error during binding: bind_nak, fault, and any PDU that is
+    not of the expected kind -/
+theorem unexpected_is_error (auth : Option Auth) (sign : Bool) (resp : Bytes) (h : Header) (ex : Expect) (p : Pdu)
+    (hd : pduUnpack resp = .ok p) (hbad : ex.matches p.body = false) :
+    processResponse auth sign resp h ex none = .error .valueError := by
+  unfold processResponse
+  cases auth <;> simp only [Bind.bind, Except.bind, pure, Except.pure, hd] <;>
+    cases hb : p.body <;> simp_all [Expect.matches, throw, throwThe, MonadExceptOf.throw]
+
+/-- Header signing stays on exactly while every ack advertised PFC_SUPPORT_HEADER_SIGN: `_process_bind_ack`
+    keeps the flag iff it was on and the ack carries the bit. -/
+theorem sign_header_iff (ack : Pdu) (ctxs fc : List ContextElement) (tok : Option Bytes) (sh sh' : Bool)
+    (h : processBindAck ack ctxs sh = .ok (fc, tok, sh')) :
+    (sh' = true ↔ sh = true ∧ ack.header.packetFlags / 4 % 2 = 1) := by
+  unfold processBindAck at h
+  cases hb : ack.body with
+  | bindAck al mx mr ag sa results =>
+    simp only [hb, Bind.bind, Except.bind] at h
+    split at h
+    · cases h
+    · simp only [pure, Except.pure, Except.ok.injEq, Prod.mk.injEq] at h
+      obtain ⟨_, _, h3⟩ := h
+      rw [← h3]
+      by_cases hf : ack.header.packetFlags / 4 % 2 = 1 <;> simp [hf]
+  | bind _ _ _ _ _ => simp [hb] at h
+  | bindNak _ _ => simp [hb] at h
+  | request _ _ _ _ _ => simp [hb] at h
+  | response _ _ _ _ => simp [hb] at h
+  | fault _ _ _ _ _ _ => simp [hb] at h
+
+/-- the bind PDU carries the first token and advertises header signing; without authentication neither -/
+theorem bind_first_token (ctxs : List ContextElement) (tr : SecTrailer) :
+    (createBind ctxs (some tr)).1.secTrailer = some tr ∧ (createBind ctxs (some tr)).2 = true ∧
+    (createBind ctxs (some tr)).1.header.packetType = 11 ∧ (createBind ctxs (some tr)).1.header.packetFlags / 4 % 2 = 1 ∧
+    (createBind ctxs none).1.secTrailer = none ∧ (createBind ctxs none).2 = false := by
+  refine ⟨rfl, rfl, rfl, ?_, rfl, rfl⟩
+  show (pfcSupportHeaderSign ||| 1 ||| 2) / 4 % 2 = 1
+  decide
+
+end DpapiNg.C15
